@@ -16,7 +16,7 @@ EXPLANATION = (
     "length counted twice; protocol numbers 17 and 6). (K-FLOW) the emitted checksum field is Checksum::as_u16 of that "
     "accumulator, and every parser returns Ok only on the branch where the received and the computed checksum are equal, "
     "the other branch returning the Checksum error. (K-CFG) every Checksum method has the same name and arity in both "
-    "configurations and a non-trivial body with the feature on. Not decided: the end-around-carry arithmetic, odd-length "
+    "configurations and a non-trivial body with the feature on. (K-ARITH) the accumulator arithmetic is decided on extracted formulas: add_u16 equals one's-complement addition with end-around carry on every region/boundary point of (accumulator, value), add_u8/add_u32 feed big-endian words in wire order, as_u16 is the complement of the sum. Not decided: odd-length "
     "padding values, the 0xffff/0x0000 representation choice of as_u16, detection of bit flips (value-level).")
 ASSUMPTIONS = ["Checksum::add_u8/add_u16/add_u32/accumulate_remainder implement RFC 1071 addition (arithmetic not checked)"]
 
@@ -197,6 +197,9 @@ def run(ctx):
             "emitted field = as_u16(accumulator); parser returns Ok only if received == computed, else Err(Checksum)")
     ctx.extra["coverage_sets"] = cover
 
+    # ---------------------------------------------------------------- K-ARITH
+    k_arith(ctx, prog)
+
     # ---------------------------------------------------------------- K-CFG
     dprog = ctx.prog("default")
     names = ("new", "add_u8", "add_u16", "add_u32", "accumulate_remainder", "as_u16")
@@ -225,3 +228,176 @@ def run(ctx):
 def _diff(a, b):
     d = a - b
     return sorted(d.elements()) if d else "nothing"
+
+
+
+from ..symx import INT_WIDTH as S_INT_WIDTH, width_of as _width_of
+
+
+def _w(t):
+    """Width the operand is computed in: the outermost cast decides, otherwise u16 (the accumulator's type)."""
+    if t[0] == "cast" and len(t) > 2:
+        return S_INT_WIDTH.get(t[2], 16)
+    if t[0] == "bin":
+        return max(_w(t[2]), _w(t[3]))
+    if t[0] == "not":
+        return _w(t[1])
+    return 16
+
+
+def _eval16(t, env):
+    """Evaluate an extracted u16 formula (leaves bound by env)."""
+    M = 1 << 16
+    if t in env:
+        return env[t]
+    k = t[0]
+    if k == "const":
+        return t[1]
+    if k == "bool":
+        return int(t[1])
+    if k == "cast":
+        v = _eval16(t[1], env)
+        w = S_INT_WIDTH.get(t[2]) if len(t) > 2 else None
+        return v % (1 << w) if w and isinstance(v, int) else v
+    if k == "not":
+        return (~_eval16(t[1], env)) % (1 << _w(t[1]))
+    if k == "pair":
+        return (_eval16(t[1], env), _eval16(t[2], env))
+    if k == "field" and t[2] in ("0", "1"):
+        v = _eval16(t[1], env)
+        return v[int(t[2])] if isinstance(v, tuple) else v
+    if k == "call":
+        nm = t[1].rsplit("::", 1)[-1]
+        a = [_eval16(x, env) for x in t[2]]
+        if nm == "overflowing_add" and len(a) == 2:
+            return ((a[0] + a[1]) % M, int(a[0] + a[1] >= M))
+        if nm == "wrapping_add" and len(a) == 2:
+            return (a[0] + a[1]) % M
+        if nm == "checked_add" and len(a) == 2:
+            raise KeyError(t)
+    if k == "bin":
+        a, b = _eval16(t[2], env), _eval16(t[3], env)
+        op = t[1]
+        if op in ("Add", "Sub", "Mul"):
+            r = {"Add": a + b, "Sub": a - b, "Mul": a * b}[op]
+            w = max(_w(t[2]), _w(t[3]))
+            if not 0 <= r < (1 << w):
+                raise OverflowError("%s overflows u%d (%d)" % (op, w, r))
+            return r
+        if op in ("BitAnd", "BitOr", "BitXor"):
+            return {"BitAnd": a & b, "BitOr": a | b, "BitXor": a ^ b}[op]
+        if op in ("Shr", "Shl"):
+            return ((a >> b) if op == "Shr" else (a << b)) % (1 << 32)
+        if op in ("Eq", "Ne", "Lt", "Le", "Gt", "Ge"):
+            return int({"Eq": a == b, "Ne": a != b, "Lt": a < b, "Le": a <= b, "Gt": a > b, "Ge": a >= b}[op])
+    if k == "ite":
+        return _eval16(t[2], env) if _eval16(t[1], env) else _eval16(t[3], env)
+    if k == "switch":
+        c = _eval16(t[1], env)
+        for v, x in t[2]:
+            if v == c:
+                return _eval16(x, env)
+        return _eval16(t[3], env)
+    raise KeyError(t)
+
+
+def _consts_in(t, out):
+    if isinstance(t, tuple):
+        if t and t[0] == "const":
+            out.add(t[1])
+        for x in t[1:]:
+            if isinstance(x, tuple):
+                _consts_in(x, out)
+
+
+def k_arith(ctx, prog):
+    """The accumulator arithmetic (RFC 1071), decided on the extracted formulas: add_u16 is one's-complement addition
+    (end-around carry) on every region of (accumulator, value) delimited by the carry boundary and the constants in
+    the formula; add_u8 / add_u32 feed big-endian 16-bit words in wire order; as_u16 is the complement (the two
+    representations of zero are interchangeable)."""
+    from .. import symx as S
+    M = 1 << 16
+    au = prog.method("Checksum", "add_u16")
+    SELF = ("param", "self")
+    try:
+        t, _ = S.extract(prog, au, effects=True)
+    except S.Unsupported as e:
+        ctx.require(False, "K-ARITH: cannot extract Checksum::add_u16 (%s)" % e)
+    new0 = None
+    if t[0] == "state":
+        for p_, v in t[2]:
+            if p_ == SELF:
+                root, fs = S.with_fields(v)
+                if root == SELF and set(fs) == {"0"}:
+                    new0 = fs["0"]
+    if new0 is None:
+        ctx.bad("K-ARITH", "K-ARITH:add_u16", au.span, "add_u16 does not update the accumulator: %s" % S.term_str(t)[:160])
+    else:
+        cs = {0, 1, 2, 0x7fff, 0x8000, 0xfffe, 0xffff, 0x00ff, 0x0100, 0x1234}
+        _consts_in(new0, cs)
+        cs = {c % M for c in cs} | {(c + d) % M for c in cs for d in (-1, 1)}
+        pts = {(a, b) for a in cs for b in cs} | {(a, (M - a + d) % M) for a in cs for d in (-2, -1, 0, 1)} | {(a, (M - 1 - a + d) % M) for a in cs for d in (-1, 0, 1)}
+        ACC, VAL = ("field", SELF, "0"), ("param", "value")
+        bad = None
+        for a, b in sorted(pts):
+            want = (a + b) % M + (1 if a + b >= M else 0)
+            try:
+                got = _eval16(new0, {ACC: a, VAL: b})
+            except OverflowError as e:
+                bad = (a, b, "panics (%s)" % e, want)
+                break
+            except KeyError as e:
+                ctx.require(False, "K-ARITH: add_u16 uses an operation the evaluator does not model: %s" % S.term_str(e.args[0])[:100])
+            if got != want:
+                bad = (a, b, "0x%04x" % got, want)
+                break
+        if bad:
+            ctx.bad("K-ARITH", "K-ARITH:add_u16", au.span, "add_u16: accumulator 0x%04x + value 0x%04x gives %s, one's-complement addition (end-around carry) gives 0x%04x" % bad)
+        else:
+            ctx.ok("K-ARITH", "K-ARITH:add_u16", au.span, "accumulator' = %s  ==  one's-complement sum on all %d region/boundary points" % (S.term_str(new0), len(pts)))
+    # add_u8 / add_u32: word assembly
+    a8 = prog.method("Checksum", "add_u8")
+    a32 = prog.method("Checksum", "add_u32")
+    try:
+        t8, _ = S.extract(prog, a8, effects=True)
+        t32, _ = S.extract(prog, a32, effects=True)
+    except S.Unsupported as e:
+        ctx.require(False, "K-ARITH: cannot extract add_u8/add_u32 (%s)" % e)
+    A, B_ = ("param", "a"), ("param", "b")
+    ps = S.params_of(a8)
+    want8 = ("upd", au.key, 0, (SELF, ("call", "core::num::{impl#7}::from_be_bytes", (("agg", "array", (ps[1], ps[2])),))))
+    got8 = dict(t8[2]).get(SELF) if t8[0] == "state" else None
+    ok8 = got8 is not None and got8[0] == "upd" and got8[1] == au.key and got8[3][0] == SELF and got8[3][1][0] == "call" and \
+        got8[3][1][1].rsplit("::", 1)[-1] == "from_be_bytes" and got8[3][1][2] and got8[3][1][2][0][0] == "agg" and got8[3][1][2][0][2] == (ps[1], ps[2])
+    (ctx.ok if ok8 else ctx.bad)("K-ARITH", "K-ARITH:add_u8", a8.span,
+        "add_u8(a, b) = add_u16(big-endian word a:b)" if ok8 else "add_u8(a, b) = %s, expected add_u16(u16::from_be_bytes([a, b]))" % S.term_str(got8 if got8 is not None else t8)[:160])
+    V = S.params_of(a32)[1]
+    ix = lambda i: ("index", V, ("const", i))
+    want32 = ("upd", a8.key, 0, (("upd", a8.key, 0, (SELF, ix(0), ix(1))), ix(2), ix(3)))
+    got32 = dict(t32[2]).get(SELF) if t32[0] == "state" else None
+    ok32 = got32 == want32
+    (ctx.ok if ok32 else ctx.bad)("K-ARITH", "K-ARITH:add_u32", a32.span,
+        "add_u32(v) = add_u8(v[0], v[1]); add_u8(v[2], v[3])" if ok32 else "add_u32(v) = %s, expected the two big-endian words v[0]:v[1], v[2]:v[3] in that order" % S.term_str(got32 if got32 is not None else t32)[:200])
+    # as_u16
+    asu = prog.method("Checksum", "as_u16")
+    try:
+        ta, _ = S.extract(prog, asu)
+    except S.Unsupported as e:
+        ctx.require(False, "K-ARITH: cannot extract as_u16 (%s)" % e)
+    cs = {0, 1, 2, 0x7fff, 0x8000, 0xfffe, 0xffff, 0x1234}
+    _consts_in(ta, cs)
+    cs = {c % M for c in cs} | {(c + d) % M for c in cs for d in (-1, 1)}
+    bad = None
+    for sum_ in sorted(cs):
+        try:
+            got = _eval16(ta, {("field", SELF, "0"): sum_})
+        except (KeyError, OverflowError) as e:
+            ctx.require(False, "K-ARITH: as_u16 cannot be evaluated (%r)" % (e,))
+        want = (~sum_) % M
+        if got != want and not (want in (0, 0xffff) and got in (0, 0xffff)):
+            bad = (sum_, got, want)
+            break
+    (ctx.bad if bad else ctx.ok)("K-ARITH", "K-ARITH:as_u16", asu.span,
+        "as_u16: for the sum 0x%04x the emitted checksum is 0x%04x, the one's complement is 0x%04x" % bad if bad else
+        "as_u16 = %s: the one's complement of the sum (0x0000 and 0xffff both denote zero)" % S.term_str(ta))
+    ctx.floor("K-ARITH", 4)
